@@ -128,11 +128,12 @@ where
         input.error_buffer.push(spl_error);
     }
 
-    move |input: TokenStream<'a>| match parser.parse(this, input) {
+    move |input: TokenStream<'a>| match parser.parse(this, input.clone()) {
         Ok((input, out)) => Ok((input, Some(out))),
+        // an affected node is parsed from scratch, at the position where it was expected
         Err(nom::Err::Error(ParserError {
             kind: ParserErrorKind::Affected,
-            input,
+            ..
         })) => match parser.parse(None, input) {
             Ok((input, out)) => Ok((input, Some(out))),
             Err(nom::Err::Error(mut err)) => {
